@@ -1,4 +1,5 @@
 import Proofs.C09
+import Proofs.Facts.C09
 #print axioms C09.SignOfWeakOrder.ofRank
 #print axioms C09.less_strict_total
 #print axioms C09.four_kinds_are_weak_orders
@@ -17,3 +18,6 @@ import Proofs.C09
 #print axioms C09.less_strict_total_spec_num
 #print axioms C09.first_order_is_first_occurrence
 #print axioms C09.first_order_is_stream_order
+#print axioms C09.Facts.num_order_agrees
+#print axioms C09.Facts.num_conds_pinned
+#print axioms C09.Facts.less_structure_agrees
